@@ -793,7 +793,7 @@ func runSweep(c *core.Ctx) {
 		c.Case("sweep", fmt.Sprintf("%s/%v/%v", s.Sweep, invert, wide), true)
 	}
 	if c.Quick() {
-		k := c.N(2500, 0)
+		k := c.N(5000, 0)
 		for i := 0; i < k; i++ {
 			p := pats[c.Rng.Intn(len(pats))]
 			run(p, c.Rng.Intn(64), i%4 == 3, i%3 == 0, i%50 == 0)
